@@ -227,3 +227,12 @@ Theorem C11_restart_same_config_keeps_table : forall r c pre saved,
   tbl (restart_state (c_sub c) c pre saved) = restore c (sess_pre c pre) saved.
 Proof. exact restart_same_config_keeps_table. Qed.
 Print Assumptions C11_restart_same_config_keeps_table.
+
+(* the clauses "never the network / broadcast address of the client's subnet" at the loader: a restored lease
+   that the loader attaches to the netfilter subnet (its MAC captured at load time) holds an address strictly
+   inside that subnet, whatever the lease file held (fix d15f9fe; before, a home-LAN binding at net2's network
+   address was re-attached to net2 and renewed with net2's mask) *)
+Theorem C11_loader_never_network_broadcast : forall cL se saved l x,
+  In l (restore cL se saved) -> l_net2 l = true -> l_ip l = Some x -> in_pool cL true x.
+Proof. exact restore_net2_in_pool. Qed.
+Print Assumptions C11_loader_never_network_broadcast.
